@@ -16,8 +16,8 @@ at BYTE offsets measured on the NOT lower-cased strings.  Core Lean only.
 | `MapKey()` (computes and caches)                  | `TN.mapKey`                            |
 | `Parts()` (computes, validates, caches)           | `TN.partsM`                            |
 | `IsQualified()`                                   | `TN.isQualified`                       |
-| `child(stripCount)`, `Child()`                    | `TN.childN`, `TN.child`                |
-| `Parent()`                                        | `TN.parent`                            |
+| `child(stripCount)`, `Child()` (derived key left empty) | `TN.childN`, `TN.child`          |
+| `Parent()` (derived key left empty)               | `TN.parent`                            |
 | `typedNameFromMapKey` (of a freshly computed key) | `TN.fromFreshKey`                      |
 | `Equals` (`t.MapKey() == tn.MapKey()`)            | `KOp.eq` in `runK`                     |
 | Go string = bytes; `len`, `s[i:j]` (panics when out of range) | `enc` (UTF-8), `List.take/drop` guarded by `fault` |
@@ -25,11 +25,12 @@ at BYTE offsets measured on the NOT lower-cased strings.  Core Lean only.
 Strings are `List Char` here and become bytes through `enc` (UTF-8, written out below so that no library lemma about
 `String` is needed); only the cached key is a byte list, because slicing can cut it anywhere.
 
-Quirk reproduced (known finding C12-typedname-derived-key): `pfxLen`, `diff` and `lx` are byte lengths of the strings as
-given, the cached key they index is lower-cased — and `unicode.ToLower` changes the UTF-8 length of some letters (`K` U+212A,
-3 bytes → `k`, 1 byte; `İ` U+0130 → `i`; `Ⱥ` U+023A, 2 bytes → `ⱥ` U+2C65, 3 bytes).  For such a name (or authority) the
-derived name carries a WRONG cached key — one name, two keys — or the slice expression panics.  When `MapKey()` was not
-called on the parent before, nothing is cached and the derived key is computed afresh, correctly.
+Repaired defect (finding C12-typedname-derived-key, fix 50062c5): `child` and `Parent` used to cut the derived name's cached
+key out of the receiver's lower-cased key at byte offsets (`pfxLen`, `diff`, `lx`) measured on the strings AS GIVEN — and
+`unicode.ToLower` changes the UTF-8 length of some letters (`K` U+212A, 3 bytes → `k`, 1 byte; `İ` U+0130 → `i`; `Ⱥ` U+023A,
+2 bytes → `ⱥ` U+2C65, 3 bytes): one name, two keys, or a slice out of range.  The pre-fix definitions are kept in
+`Proofs/LoaderKey.lean` (`TN.childNBeforeFix`, `TN.parentBeforeFix`) for the witnesses.  Now the derived name carries no
+cached key (the shared `parts` slices are unchanged) and `Derived.fault` is unreachable.
 -/
 namespace Pcore.LoaderSeq
 
@@ -111,19 +112,11 @@ def stripN : Nat → List Char → Option (List Char)
     | none => none
     | some i => stripN k (cs.drop (i + 2))
 
-/-- `child(stripCount)` -/
+/-- `child(stripCount)` (after fix 50062c5: the derived name's key is left empty and computed on demand) -/
 def TN.childN (t : TN) (k : Nat) : Derived :=
   match stripN k t.name with
   | none => .nil
-  | some name' =>
-    let pfxLen := blen t.auth + blen t.ns + 2
-    let diff := blen t.name - blen name'
-    let parts' := t.parts.map (·.drop k)
-    if t.canonical = [] then .ok { ns := t.ns, auth := t.auth, name := name', canonical := [], parts := parts' }
-    else if pfxLen + diff ≤ t.canonical.length then
-      .ok { ns := t.ns, auth := t.auth, name := name',
-            canonical := t.canonical.take pfxLen ++ t.canonical.drop (pfxLen + diff), parts := parts' }
-    else .fault
+  | some name' => .ok { ns := t.ns, auth := t.auth, name := name', canonical := [], parts := t.parts.map (·.drop k) }
 
 /-- `Child()` -/
 def TN.child (t : TN) : Derived := if t.isQualified then t.childN 1 else .nil
@@ -132,15 +125,7 @@ def TN.child (t : TN) : Derived := if t.isQualified then t.childN 1 else .nil
 def TN.parent (t : TN) : Derived :=
   match lastIndexColons t.name with
   | none => .nil
-  | some i =>
-    let name' := t.name.take i
-    let lx := blen name'
-    let pfxLen := blen t.auth + blen t.ns + 2
-    let parts' := t.parts.map (·.dropLast)
-    if t.canonical = [] then .ok { ns := t.ns, auth := t.auth, name := name', canonical := [], parts := parts' }
-    else if pfxLen + lx ≤ t.canonical.length then
-      .ok { ns := t.ns, auth := t.auth, name := name', canonical := t.canonical.take (pfxLen + lx), parts := parts' }
-    else .fault
+  | some i => .ok { ns := t.ns, auth := t.auth, name := t.name.take i, canonical := [], parts := t.parts.map (·.dropLast) }
 
 /-- `strings.LastIndexByte(s, '/')` on characters (`/` is one byte and no byte of a longer encoding) -/
 def lastSlash : List Char → Option Nat
